@@ -41,7 +41,9 @@ Inductive crop := RHas (k : key) | RTag (k : key) | RFull.
 Inductive crout :=
 | ROBool (b : bool)
 | ROTag (t : option N)
-| ROFull (all : list (key * N)) (has : list bool) (len : nat).   (* sorted All(), Has for each pool route, Len() *)
+| ROFull (all : list (key * N)) (has : list bool) (len : nat) (srv : list (option N)).
+  (* sorted All(); Has for each pool route; Len(); an actual request for each pool route: the tag of the
+     handler that served it, None = not served (404) *)
 
 Definition capply (s : cstate) (o : cwop) : cstate * cwout :=
   match o with
@@ -63,6 +65,7 @@ Definition cread (pool : list key) (s : cstate) (r : crop) : crout :=
   | RHas k => ROBool (match lookup k s with Some _ => true | None => false end)
   | RTag k => ROTag (lookup k s)
   | RFull => ROFull s (map (fun k => match lookup k s with Some _ => true | None => false end) pool) (List.length s)
+                    (map (fun k => lookup k s) pool)
   end.
 
 Definition cobs := obs cwout crout.
@@ -86,7 +89,8 @@ Definition crout_eqb (a b : crout) : bool :=
   match a, b with
   | ROBool x, ROBool y => Bool.eqb x y
   | ROTag x, ROTag y => opt_eqb N.eqb x y
-  | ROFull a1 h1 n1, ROFull a2 h2 n2 => list_eqb kv_eqb a1 a2 && list_eqb Bool.eqb h1 h2 && Nat.eqb n1 n2
+  | ROFull a1 h1 n1 s1, ROFull a2 h2 n2 s2 =>
+      list_eqb kv_eqb a1 a2 && list_eqb Bool.eqb h1 h2 && Nat.eqb n1 n2 && list_eqb (opt_eqb N.eqb) s1 s2
   | _, _ => false
   end.
 
